@@ -280,7 +280,11 @@ func (n *NetWorld) destReply(fs *flowSt, p *Probe, h HopSpec) ([]byte, Tag) {
 		tag.Responder = from.String()
 		return icmpError(from, local, f, quoteOf(p.Raw, f)), tag
 	case "tcp-syn":
-		if kind == "" {
+		switch kind {
+		case "synack", "rst", "rstack", "ttl-exceeded":
+		default:
+			// a kind meant for another probe type (a request whose runs are SACK and whose e2e probes are SYN):
+			// the port is listening, a SYN gets a SYN-ACK
 			kind = "synack"
 		}
 		tag.Form = kind
@@ -304,7 +308,16 @@ func (n *NetWorld) destReply(fs *flowSt, p *Probe, h HopSpec) ([]byte, Tag) {
 		}
 		var opts []byte
 		if kind == "synack" {
-			opts = []byte{2, 4, 0x05, 0xb4, 1, 1, 4, 2}
+			// a SYN-ACK only echoes what the SYN offered: the probe's SYN has no options, so MSS is all there is
+			// (in particular no SACK-permitted, whatever the target would grant a real connection)
+			opts = []byte{2, 4, 0x05, 0xb4}
+			if po, err := ParseTCPOptions(p.TCP.Options); err == nil {
+				for _, o := range po {
+					if o.Kind == 4 {
+						opts = append(opts, 1, 1, 4, 2)
+					}
+				}
+			}
 		}
 		return tcpReply(from, p.DPort, local, p.SPort, seq, ack, flags, opts), tag
 	case "tcp-ack":
